@@ -207,6 +207,11 @@ package commands
 // collector stops prune before anything is deleted.
 //@ func prune
 //@   props C05
+//@   at go commands.pruneTaskGetRetainedCurrentAndRecentRefs:1 assert arg2__ == retainChan && arg3__ == errorChan
+//@   at go commands.pruneTaskGetRetainedUnpushed:1 assert arg2__ == retainChan && arg3__ == errorChan
+//@   at go commands.pruneTaskGetRetainedWorktree:1 assert arg2__ == retainChan && arg3__ == errorChan
+//@   at go commands.pruneTaskGetRetainedStashed:1 assert arg1__ == retainChan && arg2__ == errorChan
+//@   at go commands.pruneTaskCollectRetained:1 assert arg1__ == retainChan
 //@   at call commands.pruneDeleteFiles:1 assert !dryRun
 //@   loop 1 iter has(retainedObjects, file.Oid) ==> len(prunableObjects) == iter(len(prunableObjects))
 //@   loop 1 iter len(prunableObjects) == iter(len(prunableObjects)) || (len(prunableObjects) == iter(len(prunableObjects)) + 1 && prunableObjects[iter(len(prunableObjects))] == file.Oid)
@@ -245,6 +250,51 @@ package commands
 //@   ensures old(err) == nil ==> chsent(retainChan) == old(chsent(retainChan)) + 1
 //@   ensures old(err) != nil ==> chsent(errorChan) == old(chsent(errorChan)) + 1
 
+// The other retention sources: stashes, the index of every worktree, other
+// worktrees' HEADs - same rule (retained or an error, never dropped); a scan
+// that fails as a whole is reported as an error too; every worktree that is
+// not prunable has its index scanned, and - unless --force - every worktree on
+// a commit not seen yet has that commit scanned.
+//@ func pruneTaskGetRetainedStashed$1
+//@   props C05
+//@   requires @inv p != nil || err != nil
+//@   ensures old(err) == nil ==> chsent(retainChan) == old(chsent(retainChan)) + 1
+//@   ensures old(err) != nil ==> chsent(errorChan) == old(chsent(errorChan)) + 1
+//@ func pruneTaskGetRetainedIndex$1
+//@   props C05
+//@   requires @inv p != nil || err != nil
+//@   ensures old(err) == nil ==> chsent(retainChan) == old(chsent(retainChan)) + 1
+//@   ensures old(err) != nil ==> chsent(errorChan) == old(chsent(errorChan)) + 1
+//@ func pruneTaskGetRetainedStashed
+//@   props C05
+//@   requires @inv gitscanner != nil && waitg != nil
+//@   at send errorChan assert mapval__ != nil
+//@ func pruneTaskGetRetainedUnpushed
+//@   props C05
+//@   requires @inv gitscanner != nil && waitg != nil
+//@   at send errorChan assert mapval__ != nil
+//@   at call (*lfs.GitScanner).ScanUnpushed:1 assert arg1__ == fetchconf.PruneRemoteName
+//@ func pruneTaskGetRetainedWorktree
+//@   props C05
+//@   requires @inv gitscanner != nil && waitg != nil
+//@   loop 1 iter !worktree.Prunable ==> spawned_index(0) == iter(spawned_index(0)) + 1
+//@   loop 1 iter fetchconf.PruneForce ==> spawned_atref(0) == iter(spawned_atref(0))
+//@   at go commands.pruneTaskGetRetainedIndex:1 assert arg1__ == worktree.Ref.Sha && arg2__ == worktree.Dir && arg3__ == retainChan && arg4__ == errorChan && arg5__ == waitg
+//@   at go commands.pruneTaskGetRetainedAtRef:1 assert arg1__ == worktree.Ref.Sha && arg2__ == retainChan && arg3__ == errorChan && arg4__ == waitg && !fetchconf.PruneForce
+//@ func pruneTaskGetRetainedIndex
+//@   props C05
+//@   requires @inv gitscanner != nil && waitg != nil
+//@   monitor spawned_index[0] := old(spawned_index(0)) + 1
+//@   at call (*lfs.GitScanner).ScanIndex:1 assert arg1__ == ref && arg2__ == workingDir
+//@ func pruneTaskGetRetainedAtRef
+//@   props C05
+//@   requires @inv gitscanner != nil && waitg != nil
+//@   monitor spawned_atref[0] := old(spawned_atref(0)) + 1
+//@ func github.com/git-lfs/git-lfs/v3/git.GetAllWorktrees
+//@   assumed
+//@   props C05
+//@   modifies fresh
+//@   ensures forall_int(i, result0[i], 0 <= i && i < len(result0) ==> result0[i] != nil)
 //@ func github.com/git-lfs/git-lfs/v3/git.RecentBranches
 //@   assumed
 //@   props C05
